@@ -1,17 +1,18 @@
 #!/bin/bash
 # False-alarm test: apply each behaviour-preserving rewrite of /repo (seeded/rewrites/R*.diff), run every
 # quick check (4 at a time), revert.  Every check must exit 0 on every rewrite.
-cd /verif
-out=${1:-/verif/build/rewrites.log}
+cd "$(dirname "$0")/.."
+R=${VERIF_REPO:-/repo}
+out=${1:-$PWD/build/rewrites.log}
 : > $out
 ./check setup >/dev/null 2>&1
 for d in ${REWRITES:-seeded/rewrites/R*.diff}; do
   n=$(basename $d .diff)
-  git -C /repo checkout -q -- . && git -C /repo apply /verif/$d || { echo "$n apply-failed" >> $out; continue; }
+  git -C $R checkout -q -- . && git -C $R apply $PWD/$d || { echo "$n apply-failed" >> $out; continue; }
   ./check C01 >/dev/null 2>&1   # builds the harness for this tree once
   printf "%s\n" C01 C02 C03 C04 C05 C06 C07 C08 C09 C10 C11 C12 C13 C14 C15 C16 C17 C18 C19 C20 | \
     xargs -P 4 -I{} sh -c 'o=$(./check {} --tier quick 2>&1); rc=$?; echo "'$n' {} exit=$rc violations=$(echo "$o" | grep -c "^VIOLATION")"' >> $out
-  git -C /repo checkout -q -- .
+  git -C $R checkout -q -- .
 done
-git -C /repo status --short >> $out
+git -C $R status --short >> $out
 echo done >> $out
